@@ -57,9 +57,30 @@ var ctors = []func() *expr.Expression{
 		return expr.AND(expr.IN("k", expr.LIST(s)), expr.IN("k", expr.LIST(s)))
 	},
 	func() *expr.Expression { return expr.Rang("r", 9, 1, true) },
+	// hand-made, partly malformed trees (every field is exported, so callers can build them):
+	// they drive the validators' and printers' error paths; a panic is a result like any other
+	func() *expr.Expression { return &expr.Expression{Op: expr.And} },
+	func() *expr.Expression {
+		return &expr.Expression{Op: expr.Range, Left: expr.Lit(expr.Column("x")), Right: "not a boundary"}
+	},
+	func() *expr.Expression { return &expr.Expression{Op: expr.Operator(99), Left: 1} },
+	func() *expr.Expression {
+		return &expr.Expression{Op: expr.In, Left: expr.Lit(expr.Column("a")),
+			Right: &expr.Expression{Op: expr.List, Left: []*expr.Expression{expr.Lit("p"), nil, expr.Lit("q")}}}
+	},
+	func() *expr.Expression {
+		return &expr.Expression{Op: expr.Not, Left: expr.Eq("a", 1), Right: expr.Eq("b", 2)}
+	},
+	func() *expr.Expression {
+		return &expr.Expression{Op: expr.Range, Left: expr.Lit(expr.Column("x")), Right: &expr.RangeBoundary{Min: expr.Lit(1)}}
+	},
+	func() *expr.Expression { return &expr.Expression{Op: expr.Equals, Left: 5, Right: expr.Lit("v")} },
+	func() *expr.Expression {
+		return &expr.Expression{Op: expr.Or, Left: expr.Eq("a", "b"), Right: &expr.Expression{Op: expr.Boost, Left: expr.Lit("c")}}
+	},
 }
 
-const numCtors = 20
+const numCtors = 28
 
 func init() {
 	if len(ctors) != numCtors {
